@@ -36,7 +36,7 @@ def cells(tier, seed):
 
 
 def explore_opts(params, tier):
-    return {"timeout_s": 10.0 if tier == "quick" else 300.0, "max_paths": 8, "norm_first": True, "path_budget_s": 180.0,
+    return {"timeout_s": 10.0 if tier == "quick" else 40.0, "max_paths": 8, "norm_first": True, "path_budget_s": 180.0,
             "engine_opts": {"cut_sites": ("linear_cg",), "item_whitelist": ("linear_cg",)},
             # linear_cg stops as soon as the residual norm is below 1e-10 (e.g. an initial guess that already solves the system): on
             # such branches A x = b holds only to that tolerance, so a real-valued counterexample there is below the replay tolerance
